@@ -121,6 +121,60 @@ def kscanStep (init : Val) (f : Val → Val → Option (Val × Val))
     | none => (ainsert m k none, [])
     | some (a', u) => (ainsert m k (some a'), [Val.pair k u])
 
+/-- what the closure of `KeyedStream::generator` answers (`hydro_lang::live_collections::keyed_stream::Generate`):
+    `Yield(out)` (state kept), `Return(out)` (emit and stop this key), `Break` (stop this key), `Continue` -/
+inductive Gen where
+  | yield (a u : Val)
+  | ret (u : Val)
+  | brk
+  | cont (a : Val)
+
+/-- one (un-keyed) generator: `None` once it has returned / broken -/
+def genStep (g : Val → Val → Gen) (s : Option Val) (x : Val) : Option Val × List Val :=
+  match s with
+  | none => (none, [])
+  | some a =>
+    match g a x with
+    | .yield a' u => (some a', [u])
+    | .ret u => (none, [u])
+    | .brk => (none, [])
+    | .cont a' => (some a', [])
+
+/-- `KeyedStream::generator(init, g)`: `Scan` over `HashMap<K, Option<A>>`
+    (`entry(k).or_insert_with(|| Some(init()))`, `existing_state.take()` on `Return` / `Break`) followed by
+    `flat_map(|d| d)`.  `KeyedStream::limit`, `enumerate` (via `scan`), `first` (via `fold_early_stop`) are
+    instances -/
+def kgenStep (init : Val) (g : Val → Val → Gen)
+    (m : List (Val × Option Val)) (x : Val) : List (Val × Option Val) × List Val :=
+  let k := x.key
+  let st := match alookup m k with
+    | none => some init
+    | some s => s
+  match st with
+  | none => (ainsert m k none, [])
+  | some a =>
+    match g a x.value with
+    | .yield a' u => (ainsert m k (some a'), [Val.pair k u])
+    | .ret u => (ainsert m k none, [Val.pair k u])
+    | .brk => (ainsert m k none, [])
+    | .cont a' => (ainsert m k (some a'), [])
+
+/-- the closure of `KeyedStream::limit(n)` (state: how many values of the key were let through) -/
+def limitGen (n : Nat) : Val → Val → Gen := fun c x =>
+  match c with
+  | .int c => if c = n then .brk else if c + 1 = n then .ret x else .yield (.int (c + 1)) x
+  | _ => .brk
+
+/-- the closure of `KeyedStream::enumerate()` (a `scan` that always answers `Some((curr, next))`) -/
+def enumGen : Val → Val → Gen := fun c x =>
+  match c with
+  | .int c => .yield (.int (c + 1)) (.pair (.int c) x)
+  | c => .yield c (.pair c x)
+
+/-- the closure of `KeyedStream::first()` (`fold_early_stop` whose closure stores the value and answers
+    `true`, i.e. `Return`, followed by `map(|v| v.unwrap())`) -/
+def firstGen : Val → Val → Gen := fun _ x => .ret x
+
 /-- `reduce`: `None` until the first item -/
 def reduceStep (f : Val → Val → Val) (s : Option Val) (x : Val) : Option Val :=
   match s with
@@ -134,6 +188,13 @@ def kfoldStep (init : Val) (f : Val → Val → Val) (m : List (Val × Val)) (x 
     | none => init
     | some a => a
   ainsert m k (f a x.value)
+
+/-- `reduce_keyed(f)`: a vacant entry takes the value, an occupied one is combined with `f` -/
+def kreduceStep (f : Val → Val → Val) (m : List (Val × Val)) (x : Val) : List (Val × Val) :=
+  let k := x.key
+  match alookup m k with
+  | none => ainsert m k x.value
+  | some a => ainsert m k (f a x.value)
 
 def entries (m : List (Val × Val)) : List Val := m.map (fun kv => Val.pair kv.1 kv.2)
 
@@ -235,6 +296,13 @@ inductive Term where
   | joinHalfS (t b : Term)                            -- JoinHalf, `b` top-level bounded -> `join_multiset_half::<'static,'tick>`
   | antiJoinS (t b : Term)                            -- AntiJoin, `b` top-level bounded -> `anti_join::<'tick,'static>`
   | differenceS (t b : Term)                          -- Difference (`filter_not_in`) -> `difference::<'tick,'static>`
+  | kgen (init : Val) (g : Val → Val → Gen) (t : Term) -- KeyedStream::generator (limit / enumerate / first): Scan + FlatMap
+  | entries (t : Term)                                -- KeyedStream::entries: the same DFIR stream, typed NoOrder
+  | kreduce (f : Val → Val → Val) (t : Term)          -- ReduceKeyed -> `reduce_keyed::<'static>`
+  | kfoldN (init : Val) (f : Val → Val → Val) (t : Term)   -- FoldKeyed of a keyed stream with NoOrder values (commutativity proof)
+  | kreduceN (f : Val → Val → Val) (t : Term)         -- ReduceKeyed of a keyed stream with NoOrder values (commutativity proof)
+  | joinLB (a b : Term)                               -- Stream::join, `a` top-level bounded, `b` unbounded: the same Join lowering
+                                                      -- (the API types the result Bounded — finding F282; here it is kinded as what it is, `sN`)
   | smap (f : Val → Val) (t : Term)                   -- Singleton/Optional::map -> `map`
   | sfilter (p : Val → Bool) (t : Term)               -- Singleton/Optional::filter -> `filter`
 
@@ -326,6 +394,28 @@ def Term.kind : Term → Option Kind
     | some sT, some bT => some sT
     | some sN, some bT => some sN
     | _, _ => none
+  | .joinLB a b =>
+    match a.kind, b.kind with
+    | some bT, some kb => if kb = sT ∨ kb = sK ∨ kb = sN then some sN else none
+    | _, _ => none
+  | .kgen _ _ t =>
+    match t.kind with
+    | some sT => some sK
+    | some sK => some sK
+    | _ => none
+  | .entries t =>
+    match t.kind with
+    | some sK => some sN
+    | _ => none
+  | .kreduce _ t =>
+    match t.kind with
+    | some sT => some ksing
+    | some sK => some ksing
+    | _ => none
+  | .kfoldN _ _ t | .kreduceN _ t =>
+    match t.kind with
+    | some sN => some ksing
+    | _ => none
   | .smap _ t =>
     match t.kind with
     | some sing => some sing
@@ -362,6 +452,12 @@ def run : Term → List TickIn → List Batch
   | .joinHalfS t b, ins => staticSideRun gJoinHalf [] (run t ins) (run b ins)
   | .antiJoinS t b, ins => staticSideRun gAntiJoin [] (run t ins) (run b ins)
   | .differenceS t b, ins => staticSideRun gDifference [] (run t ins) (run b ins)
+  | .joinLB a b, ins => joinDeltaRun [] [] (run a ins) (run b ins)
+  | .kgen init g t, ins => mealyStatic (kgenStep init g) [] (run t ins)
+  | .entries t, ins => run t ins
+  | .kreduce f t, ins => accStatic (kreduceStep f) entries [] (run t ins)
+  | .kfoldN init f t, ins => accStatic (kfoldStep init f) entries [] (run t ins)
+  | .kreduceN f t, ins => accStatic (kreduceStep f) entries [] (run t ins)
   | .smap f t, ins => (run t ins).map (List.map f)
   | .sfilter p t, ins => (run t ins).map (List.filter p)
 
@@ -392,6 +488,12 @@ def spec : Term → (Nat → List Val) → List Val
   | .joinHalfS t b, I => gJoinHalf (spec b I) (spec t I)
   | .antiJoinS t b, I => gAntiJoin (spec b I) (spec t I)
   | .differenceS t b, I => gDifference (spec b I) (spec t I)
+  | .joinLB a b, I => joinL (spec a I) (spec b I)
+  | .kgen init g t, I => (mealyList (kgenStep init g) [] (spec t I)).2
+  | .entries t, I => spec t I
+  | .kreduce f t, I => entries ((spec t I).foldl (kreduceStep f) [])
+  | .kfoldN init f t, I => entries ((spec t I).foldl (kfoldStep init f) [])
+  | .kreduceN f t, I => entries ((spec t I).foldl (kreduceStep f) [])
   | .smap f t, I => (spec t I).map f
   | .sfilter p t, I => (spec t I).filter p
 
@@ -399,9 +501,12 @@ def spec : Term → (Nat → List Val) → List Val
 def Term.WF : Term → Prop
   | .input _ | .const _ => True
   | .map _ t | .filter _ t | .flatMap _ t | .filterMap _ t | .enumerate t | .scan _ _ t
-  | .unique t | .kscan _ _ t | .reduce _ t | .kfold _ _ t | .foldB _ _ t | .reduceB _ t | .smap _ t | .sfilter _ t => t.WF
+  | .unique t | .kscan _ _ t | .reduce _ t | .kfold _ _ t | .foldB _ _ t | .reduceB _ t | .smap _ t | .sfilter _ t
+  | .kgen _ _ t | .entries t | .kreduce _ t => t.WF
   | .union a b | .chain a b | .join a b | .crossSingleton a b | .joinHalfS a b | .antiJoinS a b
-  | .differenceS a b => a.WF ∧ b.WF
+  | .differenceS a b | .joinLB a b => a.WF ∧ b.WF
   | .fold comm _ f t => t.WF ∧ (comm = true → ∀ a x y, f (f a x) y = f (f a y) x)
+  | .kfoldN _ f t => t.WF ∧ (∀ a x y, f (f a x) y = f (f a y) x)
+  | .kreduceN f t => t.WF ∧ (∀ a x y, f (f a x) y = f (f a y) x) ∧ (∀ x y, f x y = f y x)
 
 end HvHydro
